@@ -1133,6 +1133,13 @@ fn main() {
                     && m.is_coveredby() == any(&m, &["T*F**F***", "*TF**F***", "**FT*F***", "**F*TF***"])
                     && m.is_covers() == any(&m, &["T*****FF*", "*T****FF*", "***T**FF*", "****T*FF*"])
                     && m.is_touches() == any(&m, &["FT*******", "F**T*****", "F***T****"]);
+                // the dimension-dependent predicates: dim A / dim B = maxima of row I / column I
+                let d = |k: usize| ((code >> (2 * k)) & 3) as i32; // 0 = F, 1 = '0', 2 = '1', 3 = '2'
+                let (da, db) = (d(0).max(d(1)).max(d(2)), d(0).max(d(3)).max(d(6)));
+                let crosses = if da < db { any(&m, &["T*T******"]) } else if da > db { any(&m, &["T*****T**"]) } else { da == 2 && any(&m, &["0********"]) };
+                let overlaps = if da == 2 && db == 2 { any(&m, &["1*T***T**"]) } else if (da == 1 && db == 1) || (da == 3 && db == 3) { any(&m, &["T*T***T**"]) } else { false };
+                let equal = s == "FFFFFFFF2" || any(&m, &["T*F**FFF*"]);
+                let ok = ok && m.is_crosses() == crosses && m.is_overlaps() == overlaps && m.is_equal_topo() == equal;
                 if !ok {
                     fail(format!("a named predicate of the matrix {s} differs from its DE-9IM mask"));
                 }
